@@ -267,14 +267,14 @@ Lemma step_wf_insn_wf h s i : step_wf h s i = true -> insn_wf h i = true.
 Proof. intros H. now apply step_wf_parts in H as [H _]. Qed.
 
 Lemma next_row_loop_refine dbg be resumed h : pwf h ->
-  forall is fuel r added dropped,
+  forall is fuel r added inseq,
   inv h r -> r_end r = false -> prog_wf_from h (rep r) is = true ->
   (length (enc_prog be h is) < fuel)%nat ->
   match rows_from h (rep r) is with
-  | [] => exists st', next_row_loop fuel dbg be resumed h r (enc_prog be h is) added dropped = (NNone, st', dropped)
+  | [] => exists st', next_row_loop fuel dbg be resumed h r (enc_prog be h is) added inseq = (NNone, st')
   | srow :: rest =>
       exists st' is',
-        next_row_loop fuel dbg be resumed h r (enc_prog be h is) added dropped = (NRow, st', dropped) /\
+        next_row_loop fuel dbg be resumed h r (enc_prog be h is) added inseq = (NRow, st') /\
         rep (st_row st') = srow /\ r_tomb (st_row st') = false /\
         st_inp st' = enc_prog be h is' /\
         (length (st_inp st') < length (enc_prog be h is))%nat /\
@@ -283,7 +283,7 @@ Lemma next_row_loop_refine dbg be resumed h : pwf h ->
         rows_from h (rep (row_reset h (st_row st'))) is' = rest
   end.
 Proof.
-  intros P. induction is as [|i is IH]; intros fuel r added dropped I En W Hf.
+  intros P. induction is as [|i is IH]; intros fuel r added inseq I En W Hf.
   - cbn [rows_from]. destruct fuel; [simpl in Hf; lia|]. cbn. eexists. reflexivity.
   - cbn [prog_wf_from] in W. apply andb_true_iff in W as [W1 W2].
     rewrite enc_prog_cons in *.
@@ -301,19 +301,17 @@ Proof.
       pose proof (parse_insn_good dbg be h (b0 :: inp0)) as G. rewrite RT in G. cbn in G.
       destruct G as (_ & G & _). cbn [snd] in G. rewrite <- Einp in G. lia. }
     destruct (exec_spec h (rep r) i) as [s' [srow|]].
-    + destruct X as (r1 & X1 & X2 & X3 & X4 & X5). rewrite X1, X3.
-      exists (mk_st r1 (enc_prog be h is) added), is. cbn [st_row st_inp].
-      repeat split; auto.
-      * destruct X5; assumption.
-      * destruct X5; assumption.
+    + destruct X as (r1 & X1 & X2 & X3 & X4 & X5). rewrite X1, X3. cbn [andb].
+      exists (mk_st r1 (enc_prog be h is) added (negb (r_end r1))), is. cbn [st_row st_inp].
+      split; [reflexivity|]. split; [exact X2|]. split; [exact X3|]. split; [reflexivity|].
+      split; [exact Len|]. split; [exact X5|]. split.
       * destruct (r_end r1) eqn:Ee.
         -- unfold row_reset. rewrite Ee. reflexivity.
         -- rewrite (row_reset_noend h r1 Ee). reflexivity.
-      * rewrite X4. exact W2.
-      * rewrite X4. reflexivity.
+      * rewrite X4. split; [exact W2|reflexivity].
     + destruct X as (r1 & X1 & X2 & X3 & X4). rewrite X1.
       subst s'. cbn [fst] in W2.
-      specialize (IH f r1 (add_file resumed i added) dropped X3 X4 W2 ltac:(cbn [length] in *; lia)).
+      specialize (IH f r1 (add_file resumed i added) inseq X3 X4 W2 ltac:(cbn [length] in *; lia)).
       destruct (rows_from h (rep r1) is) as [|srow rest].
       * exact IH.
       * destruct IH as (st' & is' & J1 & J2 & J3 & J4 & J5 & J6 & J7 & J8 & J9).
@@ -328,20 +326,20 @@ Lemma rows_loop_refine dbg be resumed h : pwf h ->
   st_inp st = enc_prog be h is -> (length (st_inp st) < fuel)%nat ->
   exists l stf,
     rows_loop fuel dbg be resumed h st = (l, SEnd, stf) /\
-    map (fun p => rep (fst p)) l = rows_from h (rep (row_reset h (st_row st))) is /\
-    Forall (fun p => snd p = false /\ r_tomb (fst p) = false) l.
+    map rep l = rows_from h (rep (row_reset h (st_row st))) is /\
+    Forall (fun r => r_tomb r = false) l.
 Proof.
   intros P. induction fuel as [|f IH]; intros is st I En W Hi Hf; [lia|].
   cbn [rows_loop]. unfold next_row. rewrite Hi.
   pose proof (next_row_loop_refine dbg be resumed h P is (S (length (enc_prog be h is)))
-                (row_reset h (st_row st)) (st_added st) false I En W ltac:(lia)) as R.
+                (row_reset h (st_row st)) (st_added st) (st_inseq st) I En W ltac:(lia)) as R.
   destruct (rows_from h (rep (row_reset h (st_row st))) is) as [|srow rest].
   - destruct R as [st' ->]. exists [], st'. repeat split. constructor.
   - destruct R as (st' & is' & -> & R2 & R3 & R4 & R5 & R6 & R7 & R8 & R9).
     destruct (IH is' st' R6 R7 R8 R4 ltac:(rewrite Hi in Hf; lia)) as (l & stf & L1 & L2 & L3).
-    rewrite L1. exists ((st_row st', false) :: l), stf. split; [reflexivity|]. split.
-    + cbn [map fst]. rewrite R2, L2, R9. reflexivity.
-    + constructor; [split; [reflexivity|exact R3]|exact L3].
+    rewrite L1. exists (st_row st' :: l), stf. split; [reflexivity|]. split.
+    + cbn [map]. rewrite R2, L2, R9. reflexivity.
+    + constructor; [exact R3|exact L3].
 Qed.
 
 Lemma row_reset_new h : row_reset h (row_new h) = row_new h.
@@ -350,24 +348,20 @@ Proof. reflexivity. Qed.
 Lemma rows_refine_spec_lemma dbg be h is :
   prog_wf h is = true -> h_program h = enc_prog be h is ->
   exists rs, rows_model dbg be h = (rs, SEnd) /\ map rep rs = rows_spec h is /\
-             Forall (fun r => r_tomb r = false) rs /\
-             ~ swallowed_end (fst (fst (rows_ghost dbg be h))).
+             Forall (fun r => r_tomb r = false) rs.
 Proof.
   intros W Hp. unfold prog_wf in W. apply andb_true_iff in W as [W1 W2].
   pose proof (params_wf_pwf h W1) as P.
   assert (I0 : inv h (row_new h)).
   { split; [reflexivity|]. cbn. destruct P. lia. }
   destruct (rows_loop_refine dbg be false h P (S (length (h_program h))) is
-              (mk_st (row_new h) (h_program h) [])) as (l & stf & L1 & L2 & L3).
+              (st_init h (h_program h))) as (l & stf & L1 & L2 & L3).
   - exact I0.
   - reflexivity.
   - exact W2.
   - exact Hp.
   - cbn. lia.
-  - unfold rows_model, rows_ghost. rewrite L1. exists (map fst l). split; [reflexivity|]. split; [|split].
-    + rewrite map_map. exact L2.
-    + rewrite Forall_map. eapply Forall_impl; [|exact L3]. cbn. tauto.
-    + cbn [fst]. apply no_drop_no_swallow. eapply Forall_impl; [|exact L3]. cbn. tauto.
+  - unfold rows_model, rows_full. rewrite L1. exists l. split; [reflexivity|]. split; [exact L2|exact L3].
 Qed.
 
 (* ---------------------------------------------------------------- non-trivial instances of the hypotheses *)
